@@ -12,6 +12,6 @@ assert s.count(old)>=1, "pattern not found"
 open(p,"w").write(s.replace(old,new,1))
 PY
 [ $? -eq 0 ] || { echo "MUTANT $NAME: pattern not found"; rm -rf $D; exit 3; }
-VERIF_REPO=$D /verif/check $PROP --tier quick > $D/out.txt 2>&1; rc=$?
+VERIF_NO_EVIDENCE=1 VERIF_REPO=$D /verif/check $PROP --tier quick > $D/out.txt 2>&1; rc=$?
 echo "MUTANT $PROP/$NAME rc=$rc $(grep -c '^VIOLATION' $D/out.txt) violations; first: $(grep -A1 '^VIOLATION' $D/out.txt | sed -n 2p | cut -c1-160)"
 rm -rf $D /verif/replays/_found/$PROP-*
